@@ -560,3 +560,11 @@ LEVEL_TEXT += (" R1's path guards are calls of http::StatusCode's own predicates
 LEVEL_TEXT += (" Also (R6): every potential panic site between an error value and its response is on a reviewed table (no constructor, Display impl or conversion can panic for a representable status) — "
                "a site that tests an Option/Result (unwrap / expect / a match or let-else arm that panics / a panicking closure given to a combinator) is keyed by the tested value and variant, not by its "
                "spelling — and every writer of an error's header map appends.")
+
+
+SELFTEST += [
+    {"name": "cancel-arm-result-matched", "kind": "benign", "why": "behaviour-preserving: `x.await?` written as a match with `return Err(e)`",
+     "edits": [("dropshot/src/server.rs", "            handler.handle_request(rqctx, request).await?\n", "            match handler.handle_request(rqctx, request).await {\n                Ok(response) => response,\n                Err(e) => return Err(e),\n            }\n")]},
+    {"name": "cancel-arm-returns-the-handler-result-whole", "kind": "mutant", "expect": ["C13.R5"], "why": "successful responses of CancelOnDisconnect servers leave without the x-request-id stamp",
+     "edits": [("dropshot/src/server.rs", "            handler.handle_request(rqctx, request).await?\n", "            return handler.handle_request(rqctx, request).await;\n")]},
+]
